@@ -8,8 +8,9 @@ def isBlocked : Pc → Bool
 
 /-- program points from which a wake-up is under way: a setter that has stored the flag and not yet signalled,
     or a waiter that left the wait set without time-out and will re-check the flag when it gets the mutex -/
-def pendingWake : Pc → Bool
-  | .setUnlock | .setSignal | .wRelock _ false => true
+def pendingWake (sigFirst : Bool) : Pc → Bool
+  | .setUnlock => !sigFirst          -- in the signal-first order the setter at its unlock has already signalled
+  | .setSignal | .wRelock _ false => true
   | _ => false
 
 def Pc.dl : Pc → Option Deadline
@@ -27,8 +28,10 @@ structure Inv (s : St) : Prop where
   relockTO : ∀ t dl, s.pc t = .wRelock dl true → dl ≠ none ∧ ∀ d, dl = some d → d.ts.toNs ≤ s.now
   good : Good s.flog
   setOwn : ∀ t, s.pc t = .setUnlock → s.m = some t
+  /-- in the signal-first order the setter still holds the mutex when it signals -/
+  sigOwn : s.sigFirst = true → ∀ t, s.pc t = .setSignal → s.m = some t
 
-theorem inv_init (now spur : Nat) : Inv (init now spur) := by
+theorem inv_init (now spur : Nat) (sf : Bool) : Inv (init now spur sf) := by
   constructor <;> simp [init, isBlocked, Good, Pc.dl]
 
 theorem isBlocked_markSaw (p : Pc) : isBlocked (markSaw p) = isBlocked p := by cases p <;> rfl
@@ -37,6 +40,8 @@ theorem markSaw_relock (p : Pc) (dl : Option Deadline) (b : Bool) : markSaw p = 
   cases p <;> simp [markSaw]
 theorem markSaw_setUnlock (p : Pc) : markSaw p = .setUnlock ↔ p = .setUnlock := by cases p <;> simp [markSaw]
 theorem wake_setUnlock (p : Pc) : wake p = .setUnlock ↔ p = .setUnlock := by cases p <;> simp [wake]
+theorem markSaw_setSignal (p : Pc) : markSaw p = .setSignal ↔ p = .setSignal := by cases p <;> simp [markSaw]
+theorem wake_setSignal (p : Pc) : wake p = .setSignal ↔ p = .setSignal := by cases p <;> simp [wake]
 theorem isBlocked_wake (p : Pc) : isBlocked (wake p) = false := by cases p <;> rfl
 theorem dl_wake (p : Pc) : (wake p).dl = p.dl := by cases p <;> rfl
 theorem wake_relockTO (p : Pc) (dl : Option Deadline) : wake p = .wRelock dl true ↔ p = .wRelock dl true := by
@@ -45,45 +50,47 @@ theorem wake_relockTO (p : Pc) (dl : Option Deadline) : wake p = .wRelock dl tru
 theorem mem_of_get {l : List Tid} {a : Nat} {w : Tid} (h : l[a]? = some w) : w ∈ l :=
   List.mem_of_getElem? h
 
+set_option maxHeartbeats 1600000 in
 theorem inv_step {s s' : St} {t : Tid} {a : Act Op} (h : Inv s) (hs : step s t a = some s') : Inv s' := by
-  obtain ⟨h1, h2, h3, h4, h5, h6⟩ := h
+  obtain ⟨h1, h2, h3, h4, h5, h6, h7⟩ := h
   cases a with
   | tick q =>
     simp [step] at hs; subst hs
-    refine ⟨h1, h2, h3, ?_, h5, h6⟩
+    refine ⟨h1, h2, h3, ?_, h5, h6, h7⟩
     intro u dl hu; have := h4 u dl hu; refine ⟨this.1, fun d hd => ?_⟩; have := this.2 d hd; simp; omega
   | call op =>
     simp only [step] at hs
     split at hs
     · rename_i hidle
       simp at hs; subst hs
-      cases op <;> (refine ⟨?_, ?_, ?_, ?_, ?_, ?_⟩ <;> intros <;> grind [upd, isBlocked, Pc.dl, mkDeadline_ok])
+      cases op <;> (refine ⟨?_, ?_, ?_, ?_, ?_, ?_, ?_⟩ <;> intros <;> grind [upd, isBlocked, Pc.dl, mkDeadline_ok])
     · simp at hs
   | run alt =>
     simp only [step] at hs
     cases hpc : s.pc t <;> simp only [hpc] at hs
     all_goals
-      try simp only [goto, done] at hs
+      try simp only [afterSignal, goto, done] at hs
       (repeat' split at hs) <;> simp at hs <;> (try subst hs) <;>
-        (refine ⟨?_, ?_, ?_, ?_, ?_, ?_⟩ <;> intros <;>
+        (refine ⟨?_, ?_, ?_, ?_, ?_, ?_, ?_⟩ <;> intros <;>
           grind [upd, isBlocked, Pc.dl, Good, expired_iff, mem_of_get, isBlocked_markSaw, dl_markSaw, markSaw_relock,
-            isBlocked_wake, dl_wake, wake_relockTO, markSaw_setUnlock, wake_setUnlock])
+            isBlocked_wake, dl_wake, wake_relockTO, markSaw_setUnlock, wake_setUnlock, markSaw_setSignal, wake_setSignal])
 
 theorem inv_reach {now spur : Nat} {s : St} (h : Reach now spur s) : Inv s := by
   induction h with
-  | init => exact inv_init _ _
+  | init sf => exact inv_init _ _ sf
   | step _ hs ih => exact inv_step ih hs
 
 /-- while the flag is set, a waiter that was already blocked when a `set()` stored the flag always has a wake-up under way -/
 def NoLost (s : St) : Prop :=
-  s.flag = true → ∀ u dl, s.pc u = .wBlocked dl true → ∃ v, pendingWake (s.pc v) = true
+  s.flag = true → ∀ u dl, s.pc u = .wBlocked dl true → ∃ v, pendingWake s.sigFirst (s.pc v) = true
 
-theorem noLost_init (now spur : Nat) : NoLost (init now spur) := by
+theorem noLost_init (now spur : Nat) (sf : Bool) : NoLost (init now spur sf) := by
   intro h; simp [init] at h
 
+set_option maxHeartbeats 1600000 in
 theorem noLost_step {s s' : St} {t : Tid} {a : Act Op} (hi : Inv s) (h : NoLost s) (hs : step s t a = some s') :
     NoLost s' := by
-  obtain ⟨h1, h2, h3, h4, h5, h6⟩ := hi
+  obtain ⟨h1, h2, h3, h4, h5, h6, h7⟩ := hi
   cases a with
   | tick q => simp [step] at hs; subst hs; exact h
   | call op =>
@@ -101,21 +108,24 @@ theorem noLost_step {s s' : St} {t : Tid} {a : Act Op} (hi : Inv s) (h : NoLost 
     case setSignal =>
       split at hs
       · rename_i w hw
-        simp [done] at hs; subst hs
-        intro hf u dl hu
         have hwb := (h1 w).1 (mem_of_get hw)
         have hwt : w ≠ t := by intro e; subst e; simp [hpc, isBlocked] at hwb
-        refine ⟨w, ?_⟩
-        cases hp : s.pc w <;> simp [hp, isBlocked] at hwb
-        simp [upd, hwt, wake, pendingWake]
+        cases hsf : s.sigFirst <;> (simp [afterSignal, hsf, done, goto] at hs; subst hs) <;>
+        · intro hf u dl hu
+          refine ⟨w, ?_⟩
+          cases hp : s.pc w <;> simp [hp, isBlocked] at hwb
+          simp [upd, hwt, wake, pendingWake]
       · rename_i hnone
         split at hs
         · rename_i h0
-          simp [done] at hs; subst hs
           intro hf u dl hu
           exfalso
-          have hut : u ≠ t := by intro e; subst e; simp [upd] at hu
-          simp [upd, hut] at hu
+          have hu' : s.pc u = .wBlocked dl true := by
+            cases hsf : s.sigFirst <;> (simp [afterSignal, hsf, done, goto] at hs; subst hs) <;>
+            · have hut : u ≠ t := by intro e; subst e; simp [upd] at hu
+              simpa [upd, hut] using hu
+          replace hu := hu'
+          have hs := ()
           have hm := (h1 u).2 (by simp [hu, isBlocked])
           subst h0
           cases hw : s.waiters with
@@ -136,7 +146,7 @@ end Nstd.Sync.Monitor
 namespace Nstd.Sync.Monitor
 theorem noLost_reach {now spur : Nat} {s : St} (h : Reach now spur s) : NoLost s := by
   induction h with
-  | init => exact noLost_init _ _
+  | init sf => exact noLost_init _ _ sf
   | step hr hs ih => exact noLost_step (inv_reach hr) ih hs
 
 theorem good_mem {l : List FalseRet} (h : Good l) :
